@@ -588,10 +588,11 @@ class GRPEngine(Engine):
             # leader it has to look the partitions of every subscribed topic up between JoinGroup and SyncGroup
             code = draw(st.sampled_from(MD_CODES))
             ti = draw(st.integers(0, 3))
+            fault = ["mderr", ti, code] if draw(st.integers(0, 2)) else ["noleader", ti, draw(st.integers(0, 3))]
             heal = [["wait", draw(st.integers(0, 3))], ["run", 40], ["mderr", ti, 0], ["run", 60], ["wait", 3], ["run", 60], ["wait", 5], ["run", 60]]
             if not self.started:
-                return [["start"], ["run", draw(st.integers(0, 20))], ["mderr", ti, code], ["run", 40]] + heal
-            return up + [["mderr", ti, code], ["ghost_add", False], ["wait", draw(st.integers(1, 3))], ["run", 60]] + heal
+                return [["start"], ["run", draw(st.integers(0, 20))], fault, ["run", 40]] + heal
+            return up + [fault, ["ghost_add", False], ["wait", draw(st.integers(1, 3))], ["run", 60]] + heal
         # stopmid: stop() while stable, inside the first join/sync exchange, or inside a rebalance (any request of it may be in flight)
         where = draw(st.sampled_from(["stable", "join", "rebalance"]))
         tail = [["stop"], ["run", 60], ["wait", 2], ["run", 60], ["wait", 2], ["run", 30]]
@@ -623,7 +624,7 @@ class GRPEngine(Engine):
             ops += ["run"] * 10 + ["ev"]
         if w.next_timer() is not None:
             ops += ["timer", "timer", "wait", "wait", "live", "live"]
-        ops += ["err", "err", "hold", "coord", "down", "up", "leader", "mderr"]
+        ops += ["err", "err", "hold", "coord", "down", "up", "leader", "mderr", "noleader"]
         if self.cluster.held:
             ops += ["release", "release"]
         if w.live_conns():
@@ -653,6 +654,8 @@ class GRPEngine(Engine):
             return ["err", draw(st.integers(1, nb)), api, draw(st.sampled_from(CODES[api])), draw(st.integers(1, 3))]
         if op == "mderr":
             return ["mderr", draw(st.integers(0, 3)), draw(st.sampled_from(MD_CODES + [0, 0]))]
+        if op == "noleader":
+            return ["noleader", draw(st.integers(0, 3)), draw(st.integers(0, 3))]
         if op == "hold":
             return ["hold", draw(st.integers(1, nb)), draw(st.sampled_from(["join_group", "sync_group", "heartbeat", "offset_commit", "metadata", "find_coordinator", "offset_fetch", "leave_group"]))]
         if op == "release":
@@ -784,6 +787,12 @@ class GRPEngine(Engine):
                 self._fault("topic-metadata-error")
             else:
                 cl.topic_errors.pop(t, None)
+        elif op == "noleader":
+            # one partition is between leaders (election in progress): metadata lists it with leader -1 until the faults are lifted
+            names = sorted(cl.topics)
+            parts = cl.topics[names[step[1] % len(names)]]
+            parts[sorted(parts)[step[2] % len(parts)]].leader = -1
+            self._fault("partition-without-leader")
         elif op == "hold":
             cl.hold(step[1], step[2], 1)
             self._fault("held-%s-reply" % step[2])
